@@ -75,49 +75,67 @@ type curQuery interface {
 	Ent() ecs.Entity
 	Get() int64 // value of component A of the current entity (1000 + creation ordinal)
 	Close()
+	Count() int
+	At(i int) ecs.Entity
 }
 
 type curTyped struct{ q TypedQuery }
 
-func (c curTyped) Next() bool      { return c.q.Next() }
-func (c curTyped) Ent() ecs.Entity { return c.q.Entity() }
-func (c curTyped) Get() int64      { return *c.q.Get()[0] }
-func (c curTyped) Close()          { c.q.Close() }
+func (c curTyped) Next() bool          { return c.q.Next() }
+func (c curTyped) Ent() ecs.Entity     { return c.q.Entity() }
+func (c curTyped) Get() int64          { return *c.q.Get()[0] }
+func (c curTyped) Close()              { c.q.Close() }
+func (c curTyped) Count() int          { return c.q.Count() }
+func (c curTyped) At(i int) ecs.Entity { return c.q.EntityAt(i) }
 
 type curQ0 struct{ q *ecs.Query0 }
 
-func (c curQ0) Next() bool      { return c.q.Next() }
-func (c curQ0) Ent() ecs.Entity { return c.q.Entity() }
-func (c curQ0) Get() int64      { return 1000 + int64(c.q.Entity().ID()) - 1 }
-func (c curQ0) Close()          { c.q.Close() }
+func (c curQ0) Next() bool          { return c.q.Next() }
+func (c curQ0) Ent() ecs.Entity     { return c.q.Entity() }
+func (c curQ0) Get() int64          { return 1000 + int64(c.q.Entity().ID()) - 1 }
+func (c curQ0) Close()              { c.q.Close() }
+func (c curQ0) Count() int          { return c.q.Count() }
+func (c curQ0) At(i int) ecs.Entity { return c.q.EntityAt(i) }
 
 type curUnsafe struct {
 	q  *ecs.UnsafeQuery
 	id ecs.ID
 }
 
-func (c curUnsafe) Next() bool      { return c.q.Next() }
-func (c curUnsafe) Ent() ecs.Entity { return c.q.Entity() }
-func (c curUnsafe) Get() int64      { return *(*int64)(unsafe.Pointer(c.q.Get(c.id))) }
-func (c curUnsafe) Close()          { c.q.Close() }
+func (c curUnsafe) Next() bool          { return c.q.Next() }
+func (c curUnsafe) Ent() ecs.Entity     { return c.q.Entity() }
+func (c curUnsafe) Get() int64          { return *(*int64)(unsafe.Pointer(c.q.Get(c.id))) }
+func (c curUnsafe) Close()              { c.q.Close() }
+func (c curUnsafe) Count() int          { return c.q.Count() }
+func (c curUnsafe) At(i int) ecs.Entity { return c.q.EntityAt(i) }
 
 // CursorRun executes all call sequences up to maxLen on every layout and query kind.
 func (x *Exec) CursorRun(maxLen int) {
-	calls := []string{"Next", "Ent", "Get", "Close"}
+	// all sequences over the cursor calls up to maxLen, and over the cursor calls plus Count / EntityAt(0) /
+	// EntityAt(Count) (which do not depend on the cursor) up to length 4
 	seqs := [][]string{}
-	var gen func(prefix []string)
-	gen = func(prefix []string) {
+	seen := map[string]bool{}
+	var gen func(calls []string, limit int, prefix []string)
+	gen = func(calls []string, limit int, prefix []string) {
 		if len(prefix) > 0 {
-			seqs = append(seqs, append([]string{}, prefix...))
+			if k := strings.Join(prefix, ","); !seen[k] {
+				seen[k] = true
+				seqs = append(seqs, append([]string{}, prefix...))
+			}
 		}
-		if len(prefix) == maxLen {
+		if len(prefix) == limit {
 			return
 		}
 		for _, c := range calls {
-			gen(append(prefix, c))
+			gen(calls, limit, append(prefix, c))
 		}
 	}
-	gen(nil)
+	gen([]string{"Next", "Ent", "Get", "Close"}, maxLen, nil)
+	lim := 4
+	if maxLen < lim {
+		lim = maxLen
+	}
+	gen([]string{"Next", "Ent", "Get", "Close", "Count", "At0", "AtN"}, lim, nil)
 	for _, name := range sortedKeys(curLayouts) {
 		spec := curLayouts[name]
 		x.seq++
@@ -284,6 +302,12 @@ func (x *Exec) CursorRun(maxLen int) {
 							}
 						case "Close":
 							q.Close()
+						case "Count":
+							o.Res = q.Count()
+						case "At0":
+							o.Res = ord[q.At(0)]
+						case "AtN":
+							o.Res = ord[q.At(q.Count())]
 						}
 					}()
 					o.Lock = w.IsLocked()
